@@ -4,7 +4,6 @@ import (
 	"encoding/hex"
 	"math/rand"
 
-	"go.dedis.ch/onet/v3/network"
 )
 
 const defaultLimit = 10 * 1024 * 1024
@@ -32,7 +31,7 @@ func randVal(rng *rand.Rand, size int) *ValSpec {
 // payloadLen measures what Marshal makes of a value (the generator needs
 // lengths to place cuts and to hit the limit exactly).
 func payloadLen(vs *ValSpec) int {
-	b, err := network.Marshal(genValue(vs, &genCtx{}))
+	b, err := canonical(genValue(vs, &genCtx{}))
 	if err != nil {
 		panic(err)
 	}
